@@ -45,7 +45,14 @@ def run(tier, rng, C):
                 subset.append(j1)
         inline, refd = [], []
         helpers = []
+        selfref = rng.random() < 0.25
         for j, v in enumerate(vals):
+            if selfref and j in subset and v[0] == 'm' and j not in same and j not in same.values() \
+                    and not any(k[1].lstrip('~=') in ('base', 'own') for k, _ in v[1] if k[0] == 's'):
+                # the referenced mapping refers to one of its own members by its full path (${hJ:base}): resolving
+                # the member while hJ itself is being resolved is no loop
+                v = ('m', v[1] + [(S('base'), L(I(j))), (S('own'), S('${h%d:base}' % j))])
+                vals[j] = v
             tv_in = v
             if j in subset and j in same and same[j] in subset:
                 tv_ref = S('${h%d}' % same[j])
@@ -66,6 +73,8 @@ def run(tier, rng, C):
                 inline.append(('m', [(S('t'), tv_in)]))
                 refd.append(('m', [(S('t'), tv_ref)]))
         refd[0] = ('m', refd[0][1] + helpers)
+        if selfref:
+            inline[0] = ('m', inline[0][1] + [h for h in helpers if not any(k == h[0] for k, _ in inline[0][1])])
         if rng.random() < 0.4:
             # the layered parameter is also consumed through a member lookup (the on-the-fly walk
             # through its layers), in both twins
